@@ -1,6 +1,6 @@
 # Shared machinery of the /verif checks: build /repo, build the Coq development, extract,
 # build drivers, run model and implementation on the same cases, triage, evidence, verdict.
-import fcntl, hashlib, json, os, random, re, shutil, subprocess, sys, time
+import fcntl, glob, hashlib, json, os, random, re, shutil, subprocess, sys, time
 
 VERIF = os.path.dirname(os.path.dirname(os.path.abspath(__file__)))
 REPO = os.environ.get("VERIF_REPO", "/repo")
@@ -164,6 +164,57 @@ def theorem_names(path):
     return names
 
 
+FORBIDDEN = re.compile(r"\b(Axiom|Axioms|Parameter|Parameters|Conjecture|Conjectures|Admitted|admit|Admit\s+Obligations|"
+                       r"Unset\s+Guard\s+Checking|Unset\s+Positivity\s+Checking|Unset\s+Universe\s+Checking|bypass_check|"
+                       r"native_compute|Extract\s+Constant|Extract\s+Inlined\s+Constant|Extract\s+Inductive)\b")
+ALLOWED_STDLIB_AXIOMS = ()    # the development is closed under the global context; any axiom is reported
+
+
+def strip_coq_comments(src):
+    out, depth, i = [], 0, 0
+    while i < len(src):
+        if src.startswith("(*", i):
+            depth += 1; i += 2
+        elif src.startswith("*)", i) and depth:
+            depth -= 1; i += 2
+        else:
+            if depth == 0 or src[i] == "\n":
+                out.append(src[i])
+            i += 1
+    return "".join(out)
+
+
+def audit_coq():
+    """forbidden declarations/flags anywhere in the development, and Variable/Hypothesis outside a section"""
+    hits = []
+    for f in coq_files() + sorted(glob.glob(os.path.join(COQ, "Props", "*.v"))) + sorted(glob.glob(os.path.join(COQ, "Extract", "*.v"))):
+        path = f if os.path.isabs(f) else os.path.join(COQ, f)
+        try:
+            src = strip_coq_comments(open(path).read())
+        except OSError:
+            continue
+        depth = 0
+        for n, line in enumerate(src.split("\n"), 1):
+            if re.match(r"\s*Section\s", line):
+                depth += 1
+            elif re.match(r"\s*End\s", line) and depth:
+                depth -= 1
+            m = FORBIDDEN.search(line)
+            if m and not (os.path.basename(path) == "Extract.v" and m.group(1).startswith("Extract")):
+                hits.append("%s:%d: %s" % (os.path.relpath(path, COQ), n, m.group(1)))
+            if depth == 0 and re.match(r"\s*(Variable|Variables|Hypothesis|Hypotheses|Context)\b", line):
+                hits.append("%s:%d: %s outside a section" % (os.path.relpath(path, COQ), n, line.split()[0]))
+    for cp in ("_CoqProject",):
+        try:
+            t = open(os.path.join(COQ, cp)).read()
+            for flag in ("-type-in-type", "-impredicative-set", "-vos", "-vok"):
+                if flag in t:
+                    hits.append("%s: %s" % (cp, flag))
+        except OSError:
+            pass
+    return hits
+
+
 def prove(pid):
     """compile Props/Properties_<pid>.v now (always), return dict with obligations, discharged,
     assumptions (Print Assumptions output per theorem), log, failing (first failing theorem or None)"""
@@ -174,6 +225,12 @@ def prove(pid):
     log = out.decode("utf-8", "replace")
     res = {"obligations": len(names), "theorems": names, "log": log, "failing": None,
            "assumptions": {}, "checker_cmd": "cd coq && make -k -j16 && coqc -Q . QV Props/Properties_%s.v" % pid}
+    audit = audit_coq()
+    res["audit"] = audit
+    if rc == 0 and audit:
+        res["discharged"] = 0
+        res["failing"] = "(audit: forbidden construct in the development: %s)" % "; ".join(audit[:5])
+        return res
     if rc == 0:
         res["discharged"] = len(names)
         # Print Assumptions blocks appear in order
@@ -182,6 +239,12 @@ def prove(pid):
         for i, n in enumerate(names):
             if i < len(blocks):
                 res["assumptions"][n] = " ".join(blocks[i].split())[:600]
+                if blocks[i].startswith("Axioms") and res["failing"] is None:
+                    axs = re.findall(r"^([A-Za-z0-9_.']+)\s*:", blocks[i], re.M)
+                    bad = [a for a in axs if a not in ALLOWED_STDLIB_AXIOMS and a != "Axioms"]
+                    if bad:
+                        res["failing"] = "%s (depends on axiom %s)" % (n, ", ".join(bad))
+                        res["discharged"] = i
     else:
         m = re.search(r'line (\d+), characters', log)
         bad_line = int(m.group(1)) if m else 0
